@@ -202,6 +202,63 @@ func collect(repo string) []mutant {
 			})
 		}
 	}
+	// third pass (numbered after the earlier ones): cursor / offset slips — slice bounds and indices off by one
+	for _, f := range files {
+		if strings.HasSuffix(f, "_test.go") {
+			continue
+		}
+		src, _ := os.ReadFile(f)
+		fset := token.NewFileSet()
+		af, err := parser.ParseFile(fset, f, src, 0)
+		if err != nil {
+			panic(err)
+		}
+		base := filepath.Base(f)
+		off := func(p token.Pos) int { return fset.Position(p).Offset }
+		text := func(e ast.Expr) string { return string(src[off(e.Pos()):off(e.End())]) }
+		isLit := func(e ast.Expr) bool { _, ok := e.(*ast.BasicLit); return ok } // literals were covered by the first pass
+		for _, d := range af.Decls {
+			fd, ok := d.(*ast.FuncDecl)
+			if !ok || fd.Body == nil {
+				continue
+			}
+			curFunc := fd.Name.Name
+			if fd.Recv != nil && len(fd.Recv.List) == 1 {
+				t := fd.Recv.List[0].Type
+				if st, ok := t.(*ast.StarExpr); ok {
+					t = st.X
+				}
+				if id, ok := t.(*ast.Ident); ok {
+					curFunc = id.Name + "." + curFunc
+				}
+			}
+			add := func(pos token.Pos, kind, from, to string, s, e int) {
+				out = append(out, mutant{File: base, Line: fset.Position(pos).Line, Func: curFunc, Kind: kind, From: from, To: to, start: s, end: e})
+			}
+			ast.Inspect(fd.Body, func(n ast.Node) bool {
+				switch x := n.(type) {
+				case *ast.SliceExpr:
+					if x.High != nil && !isLit(x.High) {
+						s, e := off(x.High.Pos()), off(x.High.End())
+						add(x.Pos(), "slice-bound", firstLine(text(x)), "("+text(x.High)+")-1", s, e)
+						add(x.Pos(), "slice-bound", firstLine(text(x)), "("+text(x.High)+")+1", s, e)
+					}
+					if x.Low != nil && !isLit(x.Low) {
+						s, e := off(x.Low.Pos()), off(x.Low.End())
+						add(x.Pos(), "slice-bound", firstLine(text(x)), "("+text(x.Low)+")+1", s, e)
+					}
+				case *ast.IndexExpr:
+					if !isLit(x.Index) {
+						if _, isIdent := x.X.(*ast.Ident); isIdent || true {
+							s, e := off(x.Index.Pos()), off(x.Index.End())
+							add(x.Pos(), "index-shifted", firstLine(text(x)), "("+text(x.Index)+")+1", s, e)
+						}
+					}
+				}
+				return true
+			})
+		}
+	}
 	for i := range out {
 		out[i].ID = i
 	}
